@@ -1867,14 +1867,17 @@ def path_bool_labels(body, flow, path):
     return out
 
 
-def arrival_knowledge(body, flow, target_bb, loop_visits=2):
+def arrival_knowledge(body, flow, target_bb, loop_visits=2, const_feasible=False):
     """Variant knowledge (place_str -> variant) at entry of `target_bb` on every flag/variant-feasible path that
-    reaches it (deduplicated)."""
+    reaches it (deduplicated).  With const_feasible, arrivals whose path contradicts a constant / variant it carries itself (the
+    verdict enum of an inlined helper re-matched after a join) are left out."""
     out = []
     seen = set()
     for kind, path, know in sensitive_paths(body, flow, loop_visits):
         for i, bb in enumerate(path):
             if bb == target_bb:
+                if const_feasible and not path_const_feasible(body, path[:i + 1]):
+                    continue
                 key = tuple(sorted(know[i].items()))
                 if key not in seen:
                     seen.add(key)
